@@ -20,7 +20,7 @@ RULE = ('(a) every raising call of random building histories on both topology fl
         'descriptor, model hash); non-trivial when the model was non-empty')
 REQUIRED = ['target:derived-id-collision', 'raising-calls', 'raising-calls:history', 'raising-calls:targeted', 'snapshots-compared', 'target:dup-name',
             'target:dup-id', 'target:bad-kw-position', 'target:bad-interface-position', 'target:facility-bad-tuple-position',
-            'target:unknown-model', 'target:subinterface-vlan', 'target:link-stale-end', 'target:component-if-id-collision']
+            'target:unknown-model', 'target:subinterface-vlan', 'target:link-stale-end', 'target:component-if-id-collision', 'target:stale-service']
 ASSUMPTIONS = ['only argument rejections are injected (the statement is about rejected arguments); exceptions raised at arbitrary '
                'internal lines would demand a transaction mechanism the library does not promise',
                'the handle object the call was made on may be left changed (e.g. rename sets handle.name before validating); only '
@@ -281,6 +281,24 @@ def targeted_ops(rng, topo, flavour):
     return out
 
 
+def stale_service_ops(rng, topo, flavour):
+    """Calls that involve a handle of a service removed since (users keep handles): they must be refused whole."""
+    tm = topogen.tm_of(topo)
+    g = topogen.Gen(rng, topo, flavour, p_valid=1.0)
+    g.k = 20000 + rng.randrange(1000)
+    sub = flavour == 'substrate'
+    out = []
+    for k in (0, 1):
+        out.append(('stale-service', {'op': 'service_add_interface', 'service': ['stale', k], 'name': g.fresh('p'),
+                                      'node_id': g.fresh('p-id') if sub else None, 'itype': 'TrunkPort'}))
+    l3 = [tm.name(s) for s in tm.ids('NetworkService') if tm.typ(s) == 'L3VPN']
+    if l3:
+        live = rng.choice(l3)
+        out.append(('stale-service', {'op': 'peer', 'a': live, 'b': ['stale', 1]}))
+        out.append(('stale-service', {'op': 'peer', 'a': ['stale', 1], 'b': live}))
+    return out
+
+
 def run_targeted(ctx, imp, store, flavour, tag):
     rng = ctx.subrng('target', tag)
     topogen.seed_uuid(f'{ctx.seed}/{ctx.shard}/t{tag}')
@@ -302,7 +320,19 @@ def run_targeted(ctx, imp, store, flavour, tag):
         hist.append(stale_op)
     except Exception:
         pass
-    for kind, op in targeted_ops(rng, topo, flavour):
+    stale_sv = {'op': 'make_stale_services', 'node_id': 'stale-svc-a-id' if flavour == 'substrate' else None,
+                'node_id2': 'stale-svc-b-id' if flavour == 'substrate' else None}
+    have_stale_sv = False
+    try:
+        topogen.execute(topo, stale_sv)
+        hist.append(stale_sv)
+        have_stale_sv = True
+    except Exception:
+        pass
+    todo = targeted_ops(rng, topo, flavour)
+    if have_stale_sv:
+        todo += stale_service_ops(rng, topo, flavour)
+    for kind, op in todo:
         if op.get('pre') == 'b-has-port':
             # make the second add_interface of peer() fail: the other service already owns a port of that name
             try:
